@@ -20,16 +20,16 @@ import (
 )
 
 type clock struct {
-	mu      sync.Mutex   // serialises ticks
-	body    sync.RWMutex // held (R) by op bodies, (W) by the crash instant
-	n       int64
-	crashAt int64 // -1: never
-	crashed bool
-	onCrash func()
+	mu       sync.Mutex   // serialises ticks
+	body     sync.RWMutex // held (R) by op bodies, (W) by the crash instant
+	n        int64
+	crashAt  int64 // -1: never
+	crashed  bool
+	onCrash  func()
 	preCrash func(kind string)
 	inPre    bool
-	kinds   map[string]int
-	atKind  string
+	kinds    map[string]int
+	atKind   string
 }
 
 func newClock(crashAt int64) *clock { return &clock{crashAt: crashAt, kinds: map[string]int{}} }
